@@ -93,7 +93,14 @@ theorem L_stream_packet (e : Endpoint) (S : SStream) (now : Nat) (start : Int) (
     (e.decodeInputs now start (Codec.encode (S.refAt start) (S.slice start n))).lastRecvFrame ≥ e.lastRecvFrame ∧
     (e.decodeInputs now start (Codec.encode (S.refAt start) (S.slice start n))).eventQueue =
       e.eventQueue ++ evsRange S e.handles (nextFrame e S)
-        (nextFrame (e.decodeInputs now start (Codec.encode (S.refAt start) (S.slice start n))) S - nextFrame e S).toNat := by
+        (nextFrame (e.decodeInputs now start (Codec.encode (S.refAt start) (S.slice start n))) S - nextFrame e S).toNat ∧
+    (e.decodeInputs now start (Codec.encode (S.refAt start) (S.slice start n))).sendQueue =
+      e.sendQueue ++ [⟨e.magic, .inputAck
+        (e.decodeInputs now start (Codec.encode (S.refAt start) (S.slice start n))).lastRecvFrame⟩] ∧
+    (e.decodeInputs now start (Codec.encode (S.refAt start) (S.slice start n))).lastRecvFrame
+      ≤ max e.lastRecvFrame (start + (n : Int) - 1) ∧
+    (start = nextFrame e S →
+      (e.decodeInputs now start (Codec.encode (S.refAt start) (S.slice start n))).lastRecvFrame = start + (n : Int) - 1) := by
   have hnull : NULL_FRAME = (-1 : Int) := rfl
   unfold Endpoint.decodeInputs
   simp only
@@ -109,9 +116,25 @@ theorem L_stream_packet (e : Endpoint) (S : SStream) (now : Nat) (start : Int) (
       rw [h.fresh h0] at hlk
       cases hlk
     refine ⟨RInv_congr h hr rfl, rfl, fun h0 => absurd h0 hcontra,
-      by rw [lastRecvFrame_eq, lastRecvFrame_eq, hr]; exact Int.le_refl _, ?_⟩
-    rw [nextFrame_congr hr]
-    simp [evsRange, Endpoint.sendInputAck, Endpoint.queueMessage]
+      by rw [lastRecvFrame_eq, lastRecvFrame_eq, hr]; exact Int.le_refl _, ?_, ?_, ?_, ?_⟩
+    · rw [nextFrame_congr hr]
+      simp [evsRange, Endpoint.sendInputAck, Endpoint.queueMessage]
+    · have hl : (e.sendInputAck now).lastRecvFrame = e.lastRecvFrame := by
+        rw [lastRecvFrame_eq, lastRecvFrame_eq, hr]
+      rw [hl]; rfl
+    · have hl : (e.sendInputAck now).lastRecvFrame = e.lastRecvFrame := by
+        rw [lastRecvFrame_eq, lastRecvFrame_eq, hr]
+      rw [hl]; exact Int.le_max_left _ _
+    · -- a packet that starts at the frame the receiver is waiting for is always decodable
+      intro hst
+      exfalso
+      have h0' : (e.lastRecvFrame == NULL_FRAME) = false := by simpa using hcontra
+      simp only [h0', Bool.false_eq_true, if_false] at hlk
+      unfold nextFrame at hst
+      rw [if_neg hcontra] at hst
+      have : start - 1 = e.lastRecvFrame := by omega
+      rw [this, h.newest hcontra] at hlk
+      cases hlk
   | some reference =>
     simp only
     -- the reference the receiver found is the one the sender encoded against
@@ -180,7 +203,21 @@ theorem L_stream_packet (e : Endpoint) (S : SStream) (now : Nat) (start : Int) (
     obtain ⟨hinv4, hL4⟩ := RInv_prune (e2.sendInputAck now) S hinv3
       ((e2.sendInputAck now).lastRecvFrame - 2 * ((e2.sendInputAck now).maxPrediction : Int)) (by omega)
       (by rw [hL3]; exact hL2ne)
-    refine ⟨hinv4, ?_, ?_, ?_, ?_⟩
+    refine ⟨hinv4, ?_, ?_, ?_, ?_, ?_, ?_, ?_⟩
+    rotate_left 4
+    · rw [hL4, hL3]
+      show e2.sendQueue ++ [⟨e2.magic, .inputAck e2.lastRecvFrame⟩] = _
+      rw [hsq2, hmg2]
+    · rw [hL4, hL3, hL2]; exact Int.le_refl _
+    · intro hst
+      rw [hL4, hL3, hL2]
+      unfold nextFrame at hst
+      by_cases h0 : e.lastRecvFrame = NULL_FRAME
+      · rw [h0, hnull]
+        have : start + (n : Int) - 1 ≥ 0 := by omega
+        omega
+      · rw [if_neg h0] at hst
+        omega
     · show e2.handles = e.handles
       rw [hh2]
     · intro _; rw [hL4, hL3]; exact hL2ne
@@ -258,7 +295,7 @@ theorem L_stream_run (S : SStream) (now : Nat) (hsize : S.width ≤ 65535) :
   | cons p rest ih =>
     intro e h hok hfirst
     have hp := hok p List.mem_cons_self
-    obtain ⟨hinv1, hh1, hne1, hge1, hev1⟩ := L_stream_packet e S now p.1 p.2 h hp.pos hp.lo hp.hi
+    obtain ⟨hinv1, hh1, hne1, hge1, hev1, _, _, _⟩ := L_stream_packet e S now p.1 p.2 h hp.pos hp.lo hp.hi
       (fun h0 => hfirst h0 p rfl) hsize hp.cap
     simp only [runPackets]
     generalize he1 : e.decodeInputs now p.1 (Codec.encode (S.refAt p.1) (S.slice p.1 p.2)) = e1 at *
